@@ -1,9 +1,384 @@
-/- C15 - model (stub: not built yet) -/
+/-
+C15 - model of the CRL file cache (`verifier/crl/crl.go`: `FileCache.Get`, `Set`, `fileName`,
+`checkExpiry`, `fileCacheContent`; `internal/file.WriteFile` as a completed, sequential write).
+
+* the cache directory is a map  path -> stored bytes  (`FS`); only completed operations are
+  modelled (interleavings and temp-file transients are property C14);
+* `fileName url = hex (sha256 url)`: SHA-256 is a parameter `dg : U → List Nat` (a digest is a
+  list of bytes), hex encoding is concrete (Go `encoding/hex`);
+* the entry codec (`encoding/json` + base64 of `fileCacheContent`, `x509.ParseRevocationList`)
+  is a parameter `Codec` with the round-trip law as its only hypothesis;
+* expiry is `checkExpiry` over `Int` times exactly as coded: a zero `NextUpdate` is an error,
+  `time.Now().After(nextUpdate)` (strictly later) is a miss, base first, delta only when present.
+
+Not modelled (assumptions, see corpus/C15/README.md): concurrent operations and temp-file
+transients (C14); file-system failures (`os.CreateTemp` / `os.Rename` / `os.ReadFile` errors other
+than "does not exist": the root exists, is writable, and entry paths hold regular files);
+CRLs handed to `Set` whose `Raw` is empty (never produced by `x509.ParseRevocationList`; `omitempty`
+would drop an empty delta); `filepath.Join(root, name)` is `root ++ "/" ++ name` because the root is
+a clean path and the name is separator free (proved: `confined_name`).
+-/
 import NotationModel.Basic
+import NotationModel.Generated.Skeletons
 open Lean
 
 namespace NotationModel.C15
 
-def judge (_ : Json) : Except String Json := .error "C15: model not built yet"
+/-! ### hex encoding, concretely (Go `hex.EncodeToString`: `hextable[v>>4]`, `hextable[v&0x0f]`) -/
+
+def hexChars : List Char :=
+  ['0', '1', '2', '3', '4', '5', '6', '7', '8', '9', 'a', 'b', 'c', 'd', 'e', 'f']
+
+def hexDigit (n : Nat) : Char := hexChars.getD (n % 16) '0'
+
+def isHexChar (c : Char) : Bool := hexChars.contains c
+
+/-- a byte is a `Nat` below 256 (well-formedness of inputs checks the bound) -/
+def hex : List Nat → Text
+  | [] => []
+  | b :: bs => hexDigit (b / 16) :: hexDigit b :: hex bs
+
+/-! ### paths -/
+
+section Paths
+variable {U : Type}
+
+/-- `FileCache.fileName`: hex of the SHA-256 digest `dg url` -/
+def fileName (dg : U → List Nat) (u : U) : Text := hex (dg u)
+
+/-- `filepath.Join(c.root, c.fileName(url))` for a clean root and a separator-free name -/
+def filePath (root : Text) (dg : U → List Nat) (u : U) : Text := root ++ '/' :: fileName dg u
+
+end Paths
+
+/-- `p` is `root ++ "/" ++ h` with `h` exactly 64 lower-case hex characters -/
+def isCachePath (root p : Text) : Bool :=
+  (root ++ ['/']).isPrefixOf p &&
+    ((p.drop (root.length + 1)).length == 64 && (p.drop (root.length + 1)).all isHexChar)
+
+/-- name prefix of the temporary files of `file.WriteFile` (`os.CreateTemp` pattern up to `*`) -/
+def tempPrefix : Text := Facts.tempFileNamePrefix.toList.takeWhile (· != '*')
+
+/-! ### the directory as a map -/
+
+abbrev FS (C : Type) := List (Text × C)
+
+def FS.read {C : Type} : FS C → Text → Option C
+  | [], _ => none
+  | (q, c) :: r, p => if q = p then some c else FS.read r p
+
+/-- a completed `file.WriteFile(root, path, content)`: `path` now holds `content`
+(create or replace; the temp file has been renamed away) -/
+def FS.write {C : Type} (fs : FS C) (p : Text) (c : C) : FS C :=
+  (p, c) :: fs.filter (fun e => e.1 != p)
+
+/-! ### the entry codec and CRL parser as parameters -/
+
+/-- `D` = DER byte strings, `C` = file contents.
+`encode base delta` = `json.Marshal(fileCacheContent{BaseCRL, DeltaCRL(omitempty)})`,
+`decode` = `json.Unmarshal` into `fileCacheContent` (`none`: error; delta `none`: field nil),
+`parse` = `x509.ParseRevocationList` reduced to the `NextUpdate` it yields
+(`none`: parse error; `some none`: zero `NextUpdate`; `some (some t)`). -/
+structure Codec (D C : Type) where
+  encode : D → Option D → C
+  decode : C → Option (D × Option D)
+  parse : D → Option (Option Int)
+  roundtrip : ∀ b d, decode (encode b d) = some (b, d)
+
+inductive Expiry | fresh | expired | invalid
+  deriving DecidableEq, Repr
+
+/-- `checkExpiry(ctx, nextUpdate)` at time `now` -/
+def checkExpiry (now : Int) : Option Int → Expiry
+  | none => .invalid                                  -- nextUpdate.IsZero()
+  | some nu => if now > nu then .expired else .fresh  -- time.Now().After(nextUpdate)
+
+/-- result of one cache operation -/
+inductive Out (D : Type)
+  | ok | err | bundle (base : D) (delta : Option D) | miss
+  deriving DecidableEq, Repr
+
+/-- `FileCache.Get` after a successful `os.ReadFile`, in the order of the code:
+unmarshal, parse base, parse delta if present, expiry of base, expiry of delta if present -/
+def getContent {D C : Type} (cd : Codec D C) (now : Int) (c : C) : Out D :=
+  match cd.decode c with
+  | none => .err
+  | some (b, d) =>
+    match cd.parse b with
+    | none => .err
+    | some nub =>
+      match d with
+      | none =>
+        match checkExpiry now nub with
+        | .invalid => .err
+        | .expired => .miss
+        | .fresh => .bundle b none
+      | some dd =>
+        match cd.parse dd with
+        | none => .err
+        | some nud =>
+          match checkExpiry now nub with
+          | .invalid => .err
+          | .expired => .miss
+          | .fresh =>
+            match checkExpiry now nud with
+            | .invalid => .err
+            | .expired => .miss
+            | .fresh => .bundle b (some dd)
+
+/-- operations: `Set(url, nil)`, `Set(url, &Bundle{BaseCRL, DeltaCRL})` (`base = none`: nil
+BaseCRL), `Get(url)` at time `now`, and an external actor replacing the entry file of `url`
+by arbitrary content (corruption) -/
+inductive Op (U D C : Type)
+  | setNil (u : U)
+  | set (u : U) (base : Option D) (delta : Option D)
+  | get (u : U) (now : Int)
+  | plant (u : U) (c : C)
+
+def Op.url {U D C : Type} : Op U D C → U
+  | .setNil u => u
+  | .set u _ _ => u
+  | .get u _ => u
+  | .plant u _ => u
+
+section Exec
+variable {U D C : Type} (cd : Codec D C) (root : Text) (dg : U → List Nat)
+
+def step (fs : FS C) : Op U D C → FS C × Out D
+  | .setNil _ => (fs, .err)
+  | .set _ none _ => (fs, .err)
+  | .set u (some b) d => (fs.write (filePath root dg u) (cd.encode b d), .ok)
+  | .get u now =>
+    (fs, match fs.read (filePath root dg u) with
+         | none => .miss                       -- fs.ErrNotExist
+         | some c => getContent cd now c)
+  | .plant u c => (fs.write (filePath root dg u) c, .ok)
+
+def exec : FS C → List (Op U D C) → FS C × List (Out D)
+  | fs, [] => (fs, [])
+  | fs, op :: ops =>
+    ((exec (step cd root dg fs op).1 ops).1, (step cd root dg fs op).2 :: (exec (step cd root dg fs op).1 ops).2)
+
+end Exec
+
+/-! ### specification: the cache as `URL → Option content`, and what a read must return -/
+
+section Spec
+variable {U D C : Type} [DecidableEq U] (cd : Codec D C)
+
+def update (st : U → Option C) (u : U) (c : C) : U → Option C :=
+  fun x => if x = u then some c else st x
+
+/-- what is stored under each *URL* after an operation -/
+def specStep (st : U → Option C) : Op U D C → (U → Option C)
+  | .set u (some b) d => update st u (cd.encode b d)
+  | .plant u c => update st u c
+  | _ => st
+
+def specOut (st : U → Option C) : Op U D C → Out D
+  | .setNil _ => .err
+  | .set _ none _ => .err
+  | .set _ (some _) _ => .ok
+  | .plant _ _ => .ok
+  | .get u now => match st u with
+    | none => .miss
+    | some c => getContent cd now c
+
+def specExec : (U → Option C) → List (Op U D C) → List (Out D)
+  | _, [] => []
+  | st, op :: ops => specOut cd st op :: specExec (specStep cd st op) ops
+
+/-- the content last written under each URL -/
+def finalSpec : (U → Option C) → List (Op U D C) → (U → Option C)
+  | st, [] => st
+  | st, op :: ops => finalSpec (specStep cd st op) ops
+
+end Spec
+
+/-- the declarative reading of the property for one stored content, independent of the order
+of the checks in the code -/
+inductive Verdict (D : Type)
+  | bundle (base : D) (delta : Option D)  -- well formed and fresh: exactly these bytes
+  | mustMiss                              -- well formed, base or delta past next-update
+  | mustErr                               -- not a well-formed entry, nothing expired
+  | refused                               -- malformed part and expired part: miss or error
+  deriving DecidableEq, Repr
+
+def malformedCrl : Option (Option Int) → Bool
+  | some (some _) => false
+  | _ => true
+
+def expiredCrl (now : Int) : Option (Option Int) → Bool
+  | some (some t) => decide (now > t)
+  | _ => false
+
+def classify {D C : Type} (cd : Codec D C) (now : Int) (c : C) : Verdict D :=
+  match cd.decode c with
+  | none => .mustErr
+  | some (b, d) =>
+    let pb := cd.parse b
+    let malformed := malformedCrl pb || (match d with | none => false | some dd => malformedCrl (cd.parse dd))
+    let expired := expiredCrl now pb || (match d with | none => false | some dd => expiredCrl now (cd.parse dd))
+    if malformed && expired then .refused
+    else if malformed then .mustErr
+    else if expired then .mustMiss
+    else .bundle b d
+
+/-! ### the executable instance judged against the real code -/
+
+/-- a DER byte string as the harness describes it: `id` identifies the exact bytes
+(equal id <-> equal bytes, kept by the harness's registry), `parses`/`nextUpdate` are what
+`x509.ParseRevocationList` says about them (`nextUpdate` in seconds relative to the run's
+reference time, `none` = zero time / field absent) -/
+structure CrlRef where
+  id : Nat
+  parses : Bool
+  nextUpdate : Option Int
+  deriving DecidableEq, Repr, FromJson, ToJson
+
+/-- file content up to what `json.Unmarshal` makes of it: `none` = does not unmarshal -/
+abbrev Content := Option (CrlRef × Option CrlRef)
+
+def absCodec : Codec CrlRef Content where
+  encode b d := some (b, d)
+  decode c := c
+  parse d := if d.parses then some d.nextUpdate else none
+  roundtrip := by intro b d; rfl
+
+structure Url where
+  text : String            -- the URL string (documentation only; identity is the table index)
+  digest : List Nat        -- its SHA-256 digest as computed by the harness (32 bytes)
+  deriving Repr, FromJson, ToJson
+
+inductive Kind | setNil | set | get | plant
+  deriving DecidableEq, Repr, FromJson, ToJson
+
+structure OpJ where
+  kind : Kind
+  url : Nat                -- index into `urls`
+  base : Option CrlRef     -- set: BaseCRL (none = nil); plant: bytes of the baseCRL field
+  delta : Option CrlRef    -- set: DeltaCRL; plant: bytes of the deltaCRL field (none = nil)
+  now : Int                -- get: current time
+  jsonOk : Bool            -- plant: the planted bytes unmarshal into fileCacheContent
+  what : String            -- free text: which corruption (ignored by the model)
+  deriving Repr, FromJson, ToJson
+
+structure Input where
+  urls : List Url
+  ops : List OpJ
+  deriving Repr, FromJson, ToJson
+
+/-- `panic`: the call panicked (never what the model says) -/
+inductive ResKind | ok | err | bundle | miss | panic
+  deriving DecidableEq, Repr, FromJson, ToJson
+
+structure OutJ where
+  res : ResKind
+  base : Option Nat        -- bundle: id of the bytes of BaseCRL.Raw
+  delta : Option Nat       -- bundle: id of the bytes of DeltaCRL.Raw, none = no delta
+  deriving DecidableEq, Repr, FromJson, ToJson
+
+structure Obs where
+  results : List OutJ      -- one per operation
+  present : List Bool      -- per URL of the table: root/hex(sha256 url) exists at the end
+  stray : Nat              -- directory entries of root that are not the entry file of a table URL
+  files : Nat              -- directory entries of root
+  allHex : Bool            -- every entry of root is a regular file named by 64 hex characters
+  outsideChanged : Bool    -- anything around the root differs from the snapshot taken before
+  deriving DecidableEq, Repr, FromJson, ToJson
+
+def toOp (o : OpJ) : Op Nat CrlRef Content :=
+  match o.kind with
+  | .setNil => .setNil o.url
+  | .set => .set o.url o.base o.delta
+  | .get => .get o.url o.now
+  | .plant => .plant o.url (if o.jsonOk then o.base.map (fun b => (b, o.delta)) else none)
+
+def toOutJ : Out CrlRef → OutJ
+  | .ok => ⟨.ok, none, none⟩
+  | .err => ⟨.err, none, none⟩
+  | .miss => ⟨.miss, none, none⟩
+  | .bundle b d => ⟨.bundle, some b.id, d.map (·.id)⟩
+
+/-- the digest function of a run: the table the harness sent -/
+def digestOf (i : Input) (u : Nat) : List Nat :=
+  match i.urls[u]? with
+  | some e => e.digest
+  | none => []
+
+/-- abstract name of the cache root (the harness maps it to a fresh directory per case) -/
+def absRoot : Text := ['/', 'w', '/', 'c', 'a', 'c', 'h', 'e']
+
+def tablePaths (i : Input) : List Text :=
+  (List.range i.urls.length).map (filePath absRoot (digestOf i))
+
+def run (i : Input) : Obs :=
+  let r := exec absCodec absRoot (digestOf i) [] (i.ops.map toOp)
+  { results := r.2.map toOutJ,
+    present := (tablePaths i).map (fun p => (r.1.read p).isSome),
+    stray := r.1.countP (fun e => !(tablePaths i).contains e.1),
+    files := r.1.length,
+    allHex := r.1.all (fun e => isCachePath absRoot e.1),
+    outsideChanged := r.1.any (fun e => !(absRoot ++ ['/']).isPrefixOf e.1) }
+
+/-! ### the property over observables -/
+
+/-- explicit, decidable well-formedness of a case: digests are 32 bytes, pairwise distinct on the
+URL table (SHA-256 collision freedom on the URLs in use - also makes the table duplicate free),
+and every operation names a URL of the table -/
+def wf (i : Input) : Bool :=
+  i.urls.all (fun e => e.digest.length == 32 && e.digest.all (fun b => decide (b < 256))) &&
+  decide (i.urls.map (·.digest)).Nodup &&
+  i.ops.all (fun o => decide (o.url < i.urls.length))
+
+inductive Cat | setOk | setNil | planted | neverStored | fresh | expired | malformed | malformedExpired
+  deriving DecidableEq, Repr
+
+/-- what the property demands of the observed result of one operation, given what was last
+stored under each URL (`st`) -/
+def opCheck (st : Nat → Option Content) (op : Op Nat CrlRef Content) (o : OutJ) : Cat × Bool :=
+  match op with
+  | .setNil _ => (.setNil, o == ⟨.err, none, none⟩)
+  | .set _ none _ => (.setNil, o == ⟨.err, none, none⟩)
+  | .set _ (some _) _ => (.setOk, o == ⟨.ok, none, none⟩)
+  | .plant _ _ => (.planted, o == ⟨.ok, none, none⟩)
+  | .get u now =>
+    match st u with
+    | none => (.neverStored, o == ⟨.miss, none, none⟩)
+    | some c =>
+      match classify absCodec now c with
+      | .bundle b d => (.fresh, o == ⟨.bundle, some b.id, d.map (·.id)⟩)
+      | .mustMiss => (.expired, o == ⟨.miss, none, none⟩)
+      | .mustErr => (.malformed, o == ⟨.err, none, none⟩)
+      | .refused => (.malformedExpired, o == ⟨.miss, none, none⟩ || o == ⟨.err, none, none⟩)
+
+def checks : (Nat → Option Content) → List (Op Nat CrlRef Content) → List OutJ → List (Cat × Bool)
+  | _, [], _ => []
+  | _, _ :: _, [] => []
+  | st, op :: ops, o :: os => opCheck st op o :: checks (specStep absCodec st op) ops os
+
+def emptyStore : Nat → Option Content := fun _ => none
+
+def clauses (i : Input) (o : Obs) : Clauses :=
+  let ops := i.ops.map toOp
+  let cs := checks emptyStore ops o.results
+  let sel := fun (c : Cat) => cs.all (fun p => p.1 != c || p.2)
+  let fin := finalSpec absCodec emptyStore ops
+  [ ("input_wellformed", wf i),
+    ("one_result_per_operation", o.results.length == i.ops.length),
+    ("set_of_a_bundle_succeeds", sel .setOk && sel .planted),
+    ("set_of_nil_is_rejected", sel .setNil),
+    ("never_stored_is_miss", sel .neverStored),
+    ("fresh_get_returns_exact_bytes_last_stored_under_that_url", sel .fresh),
+    ("expired_base_or_delta_is_miss", sel .expired),
+    ("malformed_entry_is_error", sel .malformed),
+    ("malformed_and_expired_is_never_a_bundle", sel .malformedExpired),
+    ("one_entry_file_per_stored_url_and_nothing_else",
+      o.present == (List.range i.urls.length).map (fun u => (fin u).isSome) && o.stray == 0),
+    ("confined_to_64_hex_names_under_root", o.allHex && !o.outsideChanged) ]
+
+def Holds (i : Input) (o : Obs) : Bool := (clauses i o).holds
+
+def judge := judgeWith run clauses
 
 end NotationModel.C15
